@@ -54,6 +54,10 @@ MUTATIONS = [
  ('e10', 'C02', 'src/dynamics/transformed_hamiltonian.rs', r's/math\.axpy\(&self\.transformed_gradient, &mut self\.velocity, epsilon \/ 2\.\);/math.axpy(\&self.transformed_gradient, \&mut self.velocity, 0.5 * epsilon);/', 'EQUIVALENT (eps\/2 written as 0.5*eps: exact in binary floating point and over the reals)'),
  ('e11', 'C14', 'src/storage/hashmap.rs', r's/\(HashMapValue::F64\(vec\), Value::F64\(v\)\) => vec\.extend\(v\),/(HashMapValue::F64(vec), Value::F64(v)) => {\n                for x in v {\n                    vec.push(x);\n                }\n            }/', 'EQUIVALENT (extend written as a push loop)'),
  ('e12', 'C13', 'src/sampler.rs', r's/            \.as_mut\(\)\n            \.map\(\|v\| v\.flush\(\)\)\n            \.transpose\(\)\?;\n        Ok\(\(\)\)/            .as_mut()\n            .map_or(Ok(()), |v| v.flush())/', 'EQUIVALENT (map+transpose+? written as map_or)'),
+ ('m37', 'C15', 'src/storage/zarr/async_impl.rs', r's/                join_handle\n                    \.context\("Failed to await async chunk write operation"\)\?\n                    \.context\("Chunk write operation failed"\)\?;/                let _ = join_handle;/', 'async flush ignores the result of a queued chunk write'),
+ ('m38', 'C15', 'src/storage/zarr/async_impl.rs', r's/&self\.arrays\.warmup_param_arrays\[key\]\n                \} else \{\n                    &self\.arrays\.sample_param_arrays\[key\]\n                \};\n                store_zarr_chunk_sync\(&self\.rt_handle, array, temp_chunk, self\.chain\)\?;\n            \}\n        \}\n\n        \/\/ Join all pending writes/\&self.arrays.sample_param_arrays[key]\n                } else {\n                    \&self.arrays.warmup_param_arrays[key]\n                };\n                store_zarr_chunk_sync(\&self.rt_handle, array, temp_chunk, self.chain)?;\n            }\n        }\n\n        \/\/ Join all pending writes/', 'async flush writes partial statistic chunks into the array of the other phase'),
+ ('m39', 'C15', 'src/storage/zarr/sync_impl.rs', r's/            self\.last_sample_was_warmup = false;\n        \}\n\n        for \(name, value\) in stats/        }\n\n        for (name, value) in stats/', 'sync backend never leaves the warm-up phase (flush keeps writing partial chunks into the warm-up arrays)'),
+ ('m40', 'C15', 'src/storage/zarr/sync_impl.rs', r's/let array = if is_warmup \{\n                &self\.arrays\.warmup_draw_arrays\[name\]\n            \} else \{\n                &self\.arrays\.sample_draw_arrays\[name\]/let array = if !is_warmup {\n                \&self.arrays.warmup_draw_arrays[name]\n            } else {\n                \&self.arrays.sample_draw_arrays[name]/', 'sync backend writes full draw chunks into the array of the other phase'),
  ('e01', 'C18', 'src/mclmc.rs', r's/&& self.draw_count == self.switch_draw/&& self.draw_count >= self.switch_draw/', 'EQUIVALENT on reachable states: must not be flagged'),
  ('e02', 'C08', 'src/math/cpu_math.rs', r's/\*mean \+= diff \* diff_scale;\n                \*var \+= diff \* diff;/*mean += diff * diff_scale;\n                *var += diff * (x - *mean);/', 'EQUIVALENT for the property (ratio of variances unchanged): must not be flagged'),
 ]
